@@ -17,6 +17,9 @@ def parseLab : List String → Option Lab
   | ["start", "removeall"] => some (.start .removeAll)
   | ["start", "log", m] => m.toNat?.map (fun n => .start (.log n))
   | ["start", "other"] => some (.start .other)
+  | ["start", "fork"] => some (.start .fork)
+  | ["forkAcq", ids] => (parseIds ids).map .forkAcq
+  | ["forked"] => some .forked
   | ["acqCore"] => some .acqCore
   | ["relCore"] => some .relCore
   | ["acqH", h] => h.toNat?.map .acqH
